@@ -271,6 +271,12 @@ fn escape_json_string(s: &str) -> String {
             '\n' => out.push_str("\\n"),
             '\r' => out.push_str("\\r"),
             '\t' => out.push_str("\\t"),
+            // Other control characters are not allowed raw inside a JSON string
+            c if (c as u32) < 0x20 => {
+                out.push_str("\\u00");
+                out.push(char::from_digit((c as u32) >> 4, 16).unwrap_or('0'));
+                out.push(char::from_digit((c as u32) & 0xf, 16).unwrap_or('0'));
+            }
             c => out.push(c),
         }
     }
